@@ -171,6 +171,8 @@ def engine_family(ctx, prop, module, cfg, engine, obs_props, simulate=None):
         es = evs.get(s['id'], [])
         ret = [e for e in es if e['event'] == 'Return']
         if not ret:
+            if s['id'] in ctx.extra.get('hangs', []):
+                continue
             raise Infra('engine scenario %s did not return' % s['id'])
         scr, outs = allowed[s['_key']]
         if 'err' not in ret[0]:      # synthetic Return of a scenario in which the process died (vt.crash_to_return)
@@ -259,7 +261,7 @@ def check_C05(ctx):
     rule = ctx_rule(ctx)
     scen = vt.tlc_generate(ctx, 'GenWire', 'C05', 0)
     if ctx.quick():
-        keep = ('/late/', '/eager/', '/sackwrap/')
+        keep = ('/late/', '/eager/', '/sackwrap/', '/stall/')
         late = [s for s in scen if any(k in s['id'] for k in keep)]
         rest = [s for s in scen if not any(k in s['id'] for k in keep)]
         scen = late + rest[ctx.seed % 5::5]
